@@ -12,7 +12,7 @@ from .. import project as P
 
 LEVEL = 'model_checking'
 warnings.simplefilter('ignore')
-CFG = ('SPECIFICATION Spec\nCONSTANTS\n  Dim = %d\n  Q = 4\n  Mags = %s\nINVARIANT DetPositive\nINVARIANT SchurSymmetric\n'
+CFG = ('SPECIFICATION Spec\nCONSTANTS\n  Dim = %d\n  Q = %d\n  Mags = %s\nINVARIANT DetPositive\nINVARIANT SchurSymmetric\n'
        'INVARIANT SchurDiagonalPositive\nINVARIANT SchurVarianceShrinks\nINVARIANT Emit\nCHECK_DEADLOCK FALSE\n')
 NAMES = ['m3', 'a1', 'z9', 'c2', 'k5', 'b7']       # deliberately not in alphabetical order
 
@@ -177,7 +177,7 @@ def _law(job):
 
 def run(ctx):
     quick = ctx.tier == 'quick'
-    ctx.rule = ('(a) TLC (CondGauss) enumerates every positive-definite correlation matrix with entries k/4 (d=2,3: k in -3..3; d=4: k in {-2,0,2}) '
+    ctx.rule = ('(a) TLC (CondGauss) enumerates every positive-definite correlation matrix with entries k/4 (d=2,3: k in -3..3; d=4: k in {-2,0,2}; d=3 also k/64 with k in {0, +-24, +-32, +-63}: nearly duplicated columns) '
                 'x every non-empty proper conditioning subset and computes conditional mean coefficients and Schur complement as exact rationals; the '
                 'real sampler is run on a model carrying that matrix with dict and Series conditions (values inside and far outside the training '
                 'range) and the (mean, cov) it hands to numpy are compared with the rationals; (b) every conditioning subset for d = 2..6 x '
@@ -188,9 +188,12 @@ def run(ctx):
                        'check falls back on the statistical law (c)',
                        'statistical bands are 7 standard errors + 1e-3']
     cases = []
-    plans = [(2, '{0, 1, 2, 3}'), (3, '{0, 1, 2, 3}'), (4, '{0, 2}')] if not quick else [(2, '{0, 1, 2, 3}'), (3, '{0, 1, 3}'), (4, '{0, 2}')]
-    for d, mags in plans:
-        r = ctx.tlc('CondGauss d=%d' % d, 'CondGauss', CFG % (d, mags), workers=1, timeout=1500)
+    plans = [(2, 4, '{0, 1, 2, 3}'), (3, 4, '{0, 1, 2, 3}'), (4, 4, '{0, 2}')] if not quick else [(2, 4, '{0, 1, 2, 3}'), (3, 4, '{0, 1, 3}'), (4, 4, '{0, 2}')]
+    plans.append((3, 64, '{0, 24, 32, 63}'))       # nearly duplicated columns (condition number 127) on which the third depends unequally
+    if not quick:
+        plans.append((3, 1000, '{0, 500, 999}'))
+    for d, q, mags in plans:
+        r = ctx.tlc('CondGauss d=%d q=%d' % (d, q), 'CondGauss', CFG % (d, q, mags), workers=1, timeout=1500)
         cs = [c[0] for c in r.tagged('CASE')]
         if quick and d == 4:
             rs = np.random.RandomState(ctx.seed)
@@ -217,7 +220,7 @@ def run(ctx):
                 notes += 1
                 continue
             ctx.violation('C12|exact|d=%d,|cond|=%d|%s|%s' % (len(case['R']), len(case['cond']), p, detail.split(' ')[0]),
-                          '%s (%s) R=%s/4 conditioning on columns %s' % (p, detail[:300], case['R'], case['cond']), case)
+                          '%s (%s) R=%s/%d conditioning on columns %s' % (p, detail[:300], case['R'], case['q'], case['cond']), case)
     ctx.extra['sampler_not_observed'] = notes
     for job, probs in zip(sjobs, rsc):
         ctx.case('schema|' + json.dumps(job))
